@@ -46,6 +46,10 @@ func post(c *ev.Check, outs []*run.Outcome) {
 	c.Require("migrations_adopted", 1)
 	c.Require("overlap_bans_adopted_mid_round", 10*min)
 	c.Require("overlap_attempts_after_ban", 10*min)
+	c.Require("outage_rounds_kept_coming", 2)
+	c.Require("outage_recovered_sync_succeeded", 2)
+	c.Require("max.outage_ticks_survived", 220)
+	c.Require("cases_iofault", 3)
 	c.Require("stall_rounds_stuck", 5)
 	c.Require("stall_later_round_observed", 5)
 	c.Require("banned_udp_ports_watched", 20*min)
